@@ -25,6 +25,7 @@ SUBSUMED_BY = {
     "C14.R3": "C14.R13", "C14.R7": "C14.R13", "C14.R8": "C14.R13",
     "C15.R5": "C15.R7",
     "C19.R18": "C19.R19",
+    "C19.R20": "C19.R19",
     "C16.R4": "C16.R11",
 }
 
